@@ -10,7 +10,8 @@
 use arimaa_engine_step::List;
 use std::cell::Cell;
 use std::io::Write;
-use std::sync::{Arc, Barrier};
+use std::sync::atomic::{AtomicUsize, Ordering};
+use std::sync::Arc;
 
 thread_local! {
     static LO: Cell<usize> = Cell::new(usize::MAX);
@@ -66,7 +67,9 @@ fn main() {
         let mut worst = 0usize;
         for _ in 0..rounds {
             let l = build(n);
-            let barrier = Arc::new(Barrier::new(HOLDERS));
+            // a spinning start line: all holders leave it within a few nanoseconds of each other
+            // (a condvar barrier wakes its waiters one after the other)
+            let barrier = Arc::new(AtomicUsize::new(HOLDERS));
             let mut hs = Vec::new();
             for _ in 0..HOLDERS {
                 let mine = l.clone();
@@ -75,7 +78,10 @@ fn main() {
                     std::thread::Builder::new()
                         .stack_size(8 << 20)
                         .spawn(move || {
-                            b.wait();
+                            b.fetch_sub(1, Ordering::AcqRel);
+                            while b.load(Ordering::Acquire) != 0 {
+                                std::hint::spin_loop();
+                            }
                             drop(mine);
                             spread()
                         })
